@@ -23,7 +23,7 @@ def call_name(call):
         return f.attr
     if isinstance(f, ast.Name):
         return f.id
-    return None
+    return ""
 
 
 def call_recv(call):
@@ -396,3 +396,17 @@ def evaluated_unconditionally(stmt, target):
                 res = v
         return res
     return bool(rec(stmt, False))
+
+
+def bootstrap_names(func):
+    """(endpoint var, protocol var) of KafkaClient._send_bootstrap_request, derived from the source:
+    ep = self._endpoint_factory(...);  protocol = yield ep.connect(...)"""
+    ep = proto = None
+    for x in walk_body_shallow(func.body):
+        if isinstance(x, ast.Assign) and isinstance(x.value, ast.Call) and unparse(x.value.func).endswith("_endpoint_factory"):
+            ep = unparse(x.targets[0])
+    for x in walk_body_shallow(func.body):
+        if isinstance(x, ast.Assign) and isinstance(x.value, ast.Yield) and isinstance(x.value.value, ast.Call) and \
+                call_name(x.value.value) == "connect" and call_recv(x.value.value) == ep:
+            proto = unparse(x.targets[0])
+    return ep, proto
